@@ -951,6 +951,16 @@ theorem penalty_chunk_knot_scale_code (h : α) (hh : h ≠ 0) (lam : α) (t : In
         = lam * (dtd (finiteDiffMono t order p n)).get i j :=
   penalty_chunk_knot_scale h hh lam t order p n i j
 
+/-- non-vacuity / instance: `h = 2^20 ≠ 0`, non-uniform knots `t_i = i²`, `λ = 5`, penalty order 2, entry `(2, 3)` of the monotonic branch;
+and the second derivative coefficient `0` of `c_i = i³` on the rescaled knots is the one at scale 1 divided by `2^40`. -/
+example : (1048576 : Rat) ≠ 0
+    ∧ (5 : Rat) * 1048576 ^ (2 * 2) * (dtd (finiteDiffMono (scaleKnots (1048576 : Rat) (fun i => ((i * i : Int) : Rat))) 3 2 6)).get 2 3
+        = 5 * (dtd (finiteDiffMono (fun i => ((i * i : Int) : Rat)) 3 2 6)).get 2 3
+    ∧ (dtd (finiteDiffMono (fun i => ((i * i : Int) : Rat)) 3 2 6)).get 2 3 ≠ 0
+    ∧ derivCoef (scaleKnots (1048576 : Rat) (fun i => ((i * i : Int) : Rat))) 3 2 (fun i => ((i * i * i : Nat) : Rat)) 0
+        = derivCoef (fun i => ((i * i : Int) : Rat)) 3 2 (fun i => ((i * i * i : Nat) : Rat)) 0 / 1048576 ^ 2 := by
+  refine ⟨by norm_num, by decide +kernel, by decide +kernel, by decide +kernel⟩
+
 /-- the Cox–de Boor basis values (right-continuous order-0 indicator of the specification, `a/0 = 0` at repeated knots)
 are invariant under simultaneous scaling of the knots and the abscissa by `h > 0` — every order, every index. -/
 theorem Bind_knot_scale (h : α) (hpos : 0 < h) (t : Int → α) (x : α) (n : Nat) (i : Int) :
